@@ -100,14 +100,16 @@ def parse_tla_string(s):
 # ------------------------------------------------------------------------------------------
 # direction B: record on the real code, validate with TLC
 
-def record(vdrive, driver, seed, n, scratch, types=None, extra_env=None, small=False):
-    out = os.path.join(scratch, "trace-%s-%d%s.ndjson" % (driver, seed, "-s" if small else ""))
+def record(vdrive, driver, seed, n, scratch, types=None, extra_env=None, small=False, poison=0):
+    out = os.path.join(scratch, "trace-%s-%d%s%s.ndjson" % (driver, seed, "-s" if small else "", "-p%d" % poison if poison else ""))
     stats = out + ".stats.json"
     cmd = [vdrive, "record", "-driver", driver, "-seed", str(seed), "-n", str(n), "-out", out, "-stats", stats]
     if types:
         cmd += ["-types", ",".join(types)]
     if small:
         cmd += ["-small"]
+    if poison:
+        cmd += ["-poison", str(poison)]
     t0 = time.time()
     p = subprocess.run(cmd, capture_output=True, text=True, env=dict(os.environ, VERIF_SCHEMA=SCHEMA, **(extra_env or {})))
     if p.returncode != 0:
@@ -292,10 +294,14 @@ class Run:
 
     # -- traces ----------------------------------------------------------------------------
     def trace(self, driver, n, tracespec="TraceWire.tla", cfg="TraceWire.cfg", types=None, seed_off=0, chunk=1500, prop=None, extra_env=None, small=False,
-              patch_tables=False):
+              patch_tables=False, poison=0):
+        """poison: the same driver with the library made to fail first (1: a refused call before every history; 2: also before every
+        encode/decode of the history) - what an error path leaves behind must not reach the ordinary history (harness/vh/poison.go)"""
         vd = self.build()
         seed = self.seed + seed_off
-        path, st = record(vd, driver, seed, n, self.scratch, types=types, extra_env=extra_env, small=small)
+        path, st = record(vd, driver, seed, n, self.scratch, types=types, extra_env=extra_env, small=small, poison=poison)
+        if poison:
+            driver = "%s+poison%d" % (driver, poison)
         schema = None
         if patch_tables:
             # the run registered discriminators at run time: judge it against the tables as the application changed them
@@ -341,12 +347,16 @@ class Run:
         return res
 
     # -- hostile inputs: executed in child processes under an address-space limit -------------
-    def gen_histories(self, driver, n, types=None, seed_off=0):
+    def gen_histories(self, driver, n, types=None, seed_off=0, poison=0, small=False):
         vd = self.build()
-        out = os.path.join(self.scratch, "hist-%s-%d.ndjson" % (driver, self.seed + seed_off))
+        out = os.path.join(self.scratch, "hist-%s-%d%s.ndjson" % (driver, self.seed + seed_off, "-p%d" % poison if poison else ""))
         cmd = [vd, "gen", "-driver", driver, "-seed", str(self.seed + seed_off), "-n", str(n), "-out", out]
         if types:
             cmd += ["-types", ",".join(types)]
+        if poison:
+            cmd += ["-poison", str(poison)]
+        if small:
+            cmd += ["-small"]
         p = subprocess.run(cmd, capture_output=True, text=True, env=dict(os.environ, VERIF_SCHEMA=SCHEMA))
         if p.returncode != 0:
             raise Broken("gen %s failed: %s" % (driver, p.stderr[-2000:]))
@@ -832,12 +842,14 @@ class Run:
             (len(cases), nbad, time.time() - t0))
 
     # -- C20 -------------------------------------------------------------------------------------
-    def parallel(self, driver, n, goroutines=16, rounds=1, types=None, seed_off=0, small=False, race_filter=None, prop_clauses="C20"):
+    def parallel(self, driver, n, goroutines=16, rounds=1, types=None, seed_off=0, small=False, race_filter=None, prop_clauses="C20", poison=0, abort_violates=True, race=True):
         """the driver's histories run alone and then by many goroutines at once (race detector on);
         TLC validates the parallel events sequentially and against their solo twins"""
         vd = self.build()
-        vr = self.build(race=True)
-        hp = self.gen_histories(driver, n, types=types, seed_off=seed_off)
+        vr = self.build(race=True) if race else vd
+        hp = self.gen_histories(driver, n, types=types, seed_off=seed_off, poison=poison, small=small)
+        if poison:
+            driver = "%s+poison%d" % (driver, poison)
         out = os.path.join(self.scratch, "par-%s-%d.ndjson" % (driver, self.seed + seed_off))
         cmd = [vr, "conc", "parallel", "-in", hp, "-out", out, "-goroutines", str(goroutines), "-rounds", str(rounds)]
         p = subprocess.run(cmd, capture_output=True, text=True, timeout=3600,
@@ -848,10 +860,23 @@ class Run:
             self.violations.append({"what": "the race detector reported a data race while independent messages were encoded/decoded in parallel", "replay": rp})
             log("  parallel %s: DATA RACE reported by the race detector" % driver)
             return
-        if raced:
+        if raced and race_filter == "RESULTS-ONLY":
+            log("  parallel %s: the race detector reported a data race; this property is judged on the results of the calls only (races are C20's)" % driver)
+        elif raced:
             log("  parallel %s: a data race NOT involving %s was reported - not this property's; the results are judged all the same" % (driver, race_filter))
             self.assumptions.append("the race detector reported a race outside %s during the parallel stage; that belongs to C20" % race_filter)
         if p.returncode not in (0, 66):
+            fault = library_fault(p.stderr)
+            if fault and first_foreign_frame_is_library(p.stderr):
+                # the Go runtime aborted the process inside the library (recover() cannot catch these)
+                if abort_violates:
+                    rp = self.write_replay({"kind": "race", "cmd": " ".join(cmd[1:]), "report": p.stderr[:6000], "histories": open(hp).read().splitlines()[:2000]})
+                    self.violations.append({"what": "the Go runtime aborted the process inside the library while independent messages were handled in parallel: %s" % fault, "replay": rp})
+                    log("  parallel %s: process aborted by the runtime inside the library: %s" % (driver, fault))
+                else:
+                    log("  parallel %s: process aborted by the runtime inside the library (%s) - not this property's (C09/C17/C20); stage inconclusive" % (driver, fault))
+                    self.assumptions.append("a parallel stage was aborted by the Go runtime inside the library (%s); that belongs to C09/C17/C20" % fault)
+                return
             raise Broken("conc parallel failed: rc=%d %s" % (p.returncode, p.stderr[-1500:]))
         # the solo events must stay addressable by line number: no chunking, one TLC run
         nev = sum(1 for _ in open(out))
@@ -956,6 +981,18 @@ def library_fault(stderr):
         if f in stderr:
             return f
     return None
+
+
+def first_foreign_frame_is_library(stderr):
+    """in the crash report of the running goroutine, is the first frame outside the Go runtime a library frame (not a harness frame)?"""
+    m = re.search(r"goroutine \d+ \[running\]:\n(.*?)(\n\n|$)", stderr, re.S)
+    if not m:
+        return False
+    for line in m.group(1).splitlines():
+        if line.startswith("\t") or line.startswith("runtime.") or line.startswith("internal/") or line.startswith("sync."):
+            continue
+        return "github.com/xinchentechnote/fin-proto-go/" in line
+    return False
 
 
 def count_overlaps(lines):
